@@ -4,8 +4,21 @@ import vlib
 TRACE = ("Trace_HotspotQps", "Trace_HotspotQps.cfg")
 
 
+APA_MUTANTS = [
+    ("refill not capped at q + burst",
+     "IF add + b.tokens > cap THEN cap - n ELSE add + b.tokens - n", "add + b.tokens - n", "TokenBucket.tla"),
+    ("refill instant not advanced",
+     "b EXCEPT !.tokens = new, !.last = t, !.admitted = @ + n", "b EXCEPT !.tokens = new, !.admitted = @ + n",
+     "TokenBucket.tla"),
+    ("refill rounded up", "add == (gap * q) \\div d", "add == (gap * q) \\div d + 1", "TokenBucket.tla"),
+]
+
+
 def run(ctx):
     q = ctx.quick()
+    # unbounded (any q, burst, d, batch counts, instants): the bound of the property is an inductive
+    # consequence of the very arithmetic (TokenBucket!DecideQ) that trace validation binds to the code
+    vlib.apalache_inductive(ctx, "TokenBucketInd", mutants=APA_MUTANTS if not q else APA_MUTANTS[:1])
     vlib.standard_run(
         ctx,
         mc=[("MC_HotspotQps", "MC_HotspotQps.cfg" if q else "MC_HotspotQps_thorough.cfg", 8 if q else 14, 1800)],
@@ -16,6 +29,27 @@ def run(ctx):
         drives=[["world-drive", "--prop", "c06", "--hist", 250 if q else 5000, "--len", 50]],
         known_matcher=lambda r: vlib.match_known(ctx, r),
     )
+    # extension beyond the listed property (which speaks about histories whose distinct values fit the rule's
+    # capacity): least-recently-used replacement of the buckets once they do not.  Model-checked, replayed and
+    # trace-validated like the rest; a mismatch is recorded in the evidence, it is not a violation of C06.
+    try:
+        vlib.model_check(ctx, "MC_HotspotQps", "MC_HotspotQps_lru.cfg" if q else "MC_HotspotQps_lru_thorough.cfg", workers=8, timeout=1800)
+        vlib.check_goals(ctx, "MC_HotspotQps", "MC_HotspotQps_lru.cfg", ["GoalEvicted", "GoalEvictedBack"])
+        lb = ctx.path("lru.jsonl")
+        n = vlib.generate(ctx, "MC_HotspotQps", "Gen_HotspotQps_lru.cfg", lb, workers=1, simulate="num=%d" % (200 if q else 4000),
+                          limit=200 if q else 4000, seed=ctx.seed, tag="lru")
+        vlib.vh(ctx, ["world-replay", "--in", lb, "--out", ctx.path("lru-replay.ndjson")])
+        rej = vlib.validate_traces(ctx, TRACE[0], TRACE[1], ctx.path("lru-replay.ndjson"), "lrureplay")
+        out = ctx.path("lru-drive.ndjson")
+        vlib.vh(ctx, ["world-drive", "--prop", "c06lru", "--hist", 150 if q else 3000, "--len", 60, "--seed", ctx.seed, "--out", out])
+        rej += vlib.validate_traces(ctx, TRACE[0], TRACE[1], out, "lrudrive")
+        ctx.behaviours += n
+        ctx.notes["extension_lru_replacement"] = {
+            "behaviours_replayed": n, "histories_recorded": 150 if q else 3000, "rejected": len(rej),
+            "first_rejected": (rej[0]["history"][rej[0]["at"] - 1][:300] if rej and 0 < rej[0]["at"] <= len(rej[0]["history"]) else None)}
+        ctx.log("LRU extension: %d rejected" % len(rej))
+    except vlib.ToolError as e:
+        ctx.notes["extension_lru_replacement"] = {"tool_error": str(e)}
 
 
 def replay(ctx, path):
@@ -25,6 +59,7 @@ def replay(ctx, path):
 def evidence(ctx):
     ctx.assumptions += [
         "reference = the lazily refilled bucket named by the property (refill only when the gap exceeds d)",
+        "the bound and the bucket's range are also discharged for unbounded q, burst, d, batch counts and instants as an inductive invariant of TokenBucket!DecideQ (Apalache); what binds that arithmetic to the code is trace validation",
         "sequential requests; number of distinct values within the rule's capacity",
         "freedom from cross-talk is structural in the specification (a value's bucket is only touched by its own requests); it is decided on the code by trace validation of histories that interleave several values",
     ]
